@@ -11,7 +11,7 @@ def sh(cmd, **kw):
     return subprocess.run(cmd, stdout=subprocess.PIPE, stderr=subprocess.STDOUT, text=True, **kw)
 
 def main():
-    ids = sys.argv[1:] or sorted(os.path.basename(d) for d in glob.glob(os.path.join(ROOT, 'seeded', '*')))
+    ids = [a for a in sys.argv[1:] if not a.startswith('--')] or sorted(os.path.basename(d) for d in glob.glob(os.path.join(ROOT, 'seeded', '*')))
     head = sh(['git', '-C', ROOT, 'rev-parse', '--short', 'HEAD']).stdout.strip()
     for i in ids:
         d = os.path.join(ROOT, 'seeded', i)
@@ -46,6 +46,24 @@ def main():
                 meta.update(detected=True, verdict=verdict, check_rc=rc)
             else:
                 meta.update(detected=False, verdict='NOT detected by ./check %s quick (exit %s)' % (prop, rc), check_rc=rc)
+                # does the check of another property anchored in the same files report it?
+                files = set(re.findall(r'^\+\+\+ b/(\S+)', open(os.path.join(d, 'patch.diff')).read(), re.M))
+                others = [json.loads(l) for l in open(os.path.join(ROOT, 'properties.jsonl'))]
+                cands = [o['id'] for o in others if o['id'] != prop and files & set(o['anchors']['files'])
+                         and os.path.exists(os.path.join(ROOT, 'tools', 'props', o['id'] + '.py'))]
+                pref = ['C10', 'C09', 'C01', 'C08', 'C07', 'C16']
+                cands.sort(key=lambda c: (pref.index(c) if c in pref else 99, c))
+                for oc in cands[:6] if '--others' in sys.argv else []:
+                    sh(['git', '-C', REPO, 'apply', os.path.join(d, 'patch.diff')])
+                    try:
+                        r2 = sh([os.path.join(ROOT, 'check'), oc, 'quick'], env=dict(os.environ, VERIF_REPO=REPO), timeout=3600)
+                    finally:
+                        sh(['git', '-C', REPO, 'checkout', '--', '.'])
+                    v2 = [l for l in r2.stdout.splitlines() if l.startswith('VIOLATION')]
+                    if r2.returncode == 1 and v2:
+                        meta['verdict'] += '; but detected by ./check %s quick (%s)' % (oc, 'no-failing-input-found' if 'no-failing-input-found' in v2[0] else 'failing input')
+                        meta['detected_by_other'] = oc
+                        break
             meta['sweep_wall_s'] = round(time.time() - t, 1)
         meta['swept_at'] = head
         json.dump(meta, open(os.path.join(d, 'meta.json'), 'w'), indent=1)
